@@ -150,6 +150,18 @@ def observe_dtype_render(fx, np, props, t, cplx, route):
     try:
         Fxp = fx.Fxp
         val = (1 + 1j) if cplx else None
+        if cplx and '#' in route:          # complex ARRAYS whose imaginary parts are all zero; results of complex arithmetic that come out real-valued
+            route, kind = route.split('#')
+            if kind == 'zero-imag':
+                val = np.array([1 + 0j, 0j])
+            elif kind == 'conjprod':
+                a0 = Fxp(np.array([1 + 1j, 1 - 1j]), True, max(4, w // 2), 0)
+                prod = a0 * np.conj(a0)
+                if route == 'dtype-default':
+                    st = prod.dtype
+                    want = {'s': bool(prod.signed), 'w': int(prod.n_word), 'f': int(prod.n_frac)}
+                    return dict(row, s=want['s'], w=want['w'], f=want['f'], notation='fxp', str=chars(st), route=row['route'])
+                val = np.array([2 + 0j, 2 + 0j])
         notation = {'dtype-default': 'fxp', 'dtype-Q': 'Q', 'get_dtype(fxp)|fxp': 'fxp', 'get_dtype(Q)|fxp': 'Q',
                     'get_dtype(fxp)|Q': 'fxp', 'get_dtype(Q)|Q': 'Q', 'get_dtype()|Q': 'Q', 'get_dtype()|fxp': 'fxp'}['|'.join(route.split('|')[:2])]
         if route == 'dtype-default':
